@@ -5,6 +5,7 @@ package main
 
 import (
 	"fmt"
+	"os"
 	"go/types"
 	"math/big"
 	"strconv"
@@ -15,6 +16,25 @@ import (
 )
 
 const vnPkg = "github.com/istio-ecosystem/authservice/internal/vn"
+
+// concreteNext returns the next recorded value for an input name when the engine replays a
+// counterexample concretely (debugging aid: GOSYM_CONCRETE=<cex.json>).
+func (e *Engine) concreteNext(st *State, name string) (*CexInput, bool) {
+	if e.concrete == nil {
+		return nil, false
+	}
+	k := "cx:" + name
+	n := 0
+	if v, ok := st.ghost[k]; ok {
+		n = int(v.(*Term).Int64())
+	}
+	q := e.concrete[name]
+	if n >= len(q) {
+		return nil, false
+	}
+	st.ghost[k] = I(int64(n + 1))
+	return &q[n], true
+}
 
 func (e *Engine) registerIntrinsics() {
 	e.intr = map[string]Intrinsic{}
@@ -27,6 +47,10 @@ func (e *Engine) registerIntrinsics() {
 		name := mustConstStr(c.args[0])
 		v := FreshVar("b_"+name, SBool)
 		c.st.inputs = append(c.st.inputs, InputRec{Name: name, Kind: "bool", T: v})
+		if ci, ok := c.e.concreteNext(c.st, name); ok {
+			c.st.assume(Eq(v, B(ci.Bool)))
+			return c.ret(B(ci.Bool))
+		}
 		return c.ret(v)
 	})
 	r(vnPkg+".Int", func(c *CallCtx) []Outcome {
@@ -34,6 +58,14 @@ func (e *Engine) registerIntrinsics() {
 		v := FreshVar("i_"+name, SInt)
 		c.st.assume(And(Le(c.args[1].(*Term), v), Le(v, c.args[2].(*Term))))
 		c.st.inputs = append(c.st.inputs, InputRec{Name: name, Kind: "int", T: v})
+		if ci, ok := c.e.concreteNext(c.st, name); ok {
+			bi, _ := new(big.Int).SetString(ci.Int, 10)
+			if bi == nil {
+				bi = big.NewInt(0)
+			}
+			c.st.assume(Eq(v, IBig(bi)))
+			return c.ret(IBig(bi))
+		}
 		return c.ret(v)
 	})
 	r(vnPkg+".String", func(c *CallCtx) []Outcome {
@@ -41,6 +73,9 @@ func (e *Engine) registerIntrinsics() {
 		cap := mustConstInt(c.args[1])
 		s := c.st.newSymStr("s_"+name, cap)
 		c.st.inputs = append(c.st.inputs, InputRec{Name: name, Kind: "string", S: s})
+		if ci, ok := c.e.concreteNext(c.st, name); ok {
+			return c.ret(constStr(string(ci.Bytes)))
+		}
 		return c.ret(s)
 	})
 	r(vnPkg+".StringIn", func(c *CallCtx) []Outcome {
@@ -55,11 +90,18 @@ func (e *Engine) registerIntrinsics() {
 		}
 		s.p[0].alpha = &al
 		c.st.inputs = append(c.st.inputs, InputRec{Name: name, Kind: "string", S: s})
+		if ci, ok := c.e.concreteNext(c.st, name); ok {
+			return c.ret(constStr(string(ci.Bytes)))
+		}
 		return c.ret(s)
 	})
 	r(vnPkg+".Choice", func(c *CallCtx) []Outcome {
 		name := mustConstStr(c.args[0])
 		n := mustConstInt(c.args[1])
+		if ci, ok := c.e.concreteNext(c.st, name); ok {
+			c.st.inputs = append(c.st.inputs, InputRec{Name: name, Kind: "choice", Pick: ci.Pick})
+			return c.ret(I(int64(ci.Pick)))
+		}
 		var outs []Outcome
 		for i := 0; i < n; i++ {
 			s := c.st
@@ -78,6 +120,10 @@ func (e *Engine) registerIntrinsics() {
 		hi := int64(c.e.bound("time-hi-unix", 4102444800)) // 2100-01-01
 		c.st.assume(And(Le(Mul(I(lo), I(1e9)), v), Le(v, Mul(I(hi), I(1e9)))))
 		c.st.inputs = append(c.st.inputs, InputRec{Name: name, Kind: "time", T: v})
+		if ci, ok := c.e.concreteNext(c.st, name); ok {
+			bi, _ := new(big.Int).SetString(ci.Int, 10)
+			return c.ret(TimeV{IBig(bi)})
+		}
 		return c.ret(TimeV{v})
 	})
 	r(vnPkg+".TimeOrZero", func(c *CallCtx) []Outcome {
@@ -87,6 +133,10 @@ func (e *Engine) registerIntrinsics() {
 		hi := int64(c.e.bound("time-hi-unix", 4102444800))
 		c.st.assume(Or(Eq(v, zeroTimeNs), And(Le(Mul(I(lo), I(1e9)), v), Le(v, Mul(I(hi), I(1e9))))))
 		c.st.inputs = append(c.st.inputs, InputRec{Name: name, Kind: "time", T: v})
+		if ci, ok := c.e.concreteNext(c.st, name); ok {
+			bi, _ := new(big.Int).SetString(ci.Int, 10)
+			return c.ret(TimeV{IBig(bi)})
+		}
 		return c.ret(TimeV{v})
 	})
 	r(vnPkg+".Bound", func(c *CallCtx) []Outcome {
@@ -329,6 +379,9 @@ func (e *Engine) builtinAppend(st *State, a, b Value) Value {
 // ---------------------------------------------------------------- assertions, covers, findings
 
 func (e *Engine) assertCond(st *State, label string, cond *Term, where string) {
+	if e.concrete != nil {
+		fmt.Fprintf(os.Stderr, "CONCRETE assert %s at %s: %s\n", label, where, cond)
+	}
 	atomic.AddInt64(&e.stats.Obligations, 1)
 	e.mu.Lock()
 	e.oblLabels["assert:"+label]++
